@@ -29,3 +29,235 @@ def phase_laws(ctx, phase):
     ctx.tlc_runs.append(dict(profile="laws:" + base, states=res["states"], distinct=res["distinct"], laws=len(laws), wall=round(res["wall"], 1), mode="bfs"))
     ctx.extra.setdefault("laws_checked", []).extend(laws)
     return d
+
+
+# ------------------------------------------------------------------------------------------
+# C13: overload resolution (engine T)
+
+def _code_outcomes(max_arity, reverse_sigs=False):
+    from . import catalog as C
+
+    if reverse_sigs:
+        from pydiverse.transform._internal.ops.signature import SignatureTrie
+
+        for _, o in C.operators():
+            o.trie = SignatureTrie()
+            for sig in reversed(o.signatures):
+                o.trie.insert(sig.types, sig.return_type, sig.is_vararg)
+    return C.enumerate_code(max_arity)
+
+
+def _colfn_outcomes(max_arity):
+    """ColFn construction outcome for every tuple (the user-visible side of type checking)."""
+    import itertools
+    import uuid as _uuid
+
+    from pydiverse.transform._internal.ops.op import Ftype
+    from pydiverse.transform._internal.tree import types
+    from pydiverse.transform._internal.tree.col_expr import Col, ColFn, LiteralCol
+
+    from . import catalog as C
+
+    uni = C.all_types()
+
+    def mk(t):
+        if types.is_const(t):
+            return LiteralCol(None, dtype=t.base)
+        return Col("x", None, _uuid.uuid1(), t, Ftype.ELEMENT_WISE)
+
+    out = {}
+    for n, o in C.operators():
+        ar = set()
+        for s in o.signatures:
+            k = len(s.types)
+            ar |= set(range(max(1, k - 1), max_arity + 1)) if s.is_vararg else {k}
+        for k in sorted(a for a in ar if a <= max_arity):
+            for tup in itertools.product(uni, repeat=k):
+                try:
+                    e = ColFn(o, *[mk(t) for t in tup])
+                    r = ("match", C.tok(types.without_const(e.dtype())))
+                except Exception as ex:  # noqa: BLE001
+                    r = ("error", type(ex).__name__)
+                out[(n, tuple(C.tok(t) for t in tup))] = r
+    return out
+
+
+def _subproc_outcomes(args):
+    """run in a fresh interpreter with another PYTHONHASHSEED / reversed declaration order"""
+    max_arity, hashseed, reverse = args
+    import json
+    import subprocess
+    import sys
+
+    code = ("import sys, json; sys.path.insert(0, %r); from harness import phases as P; "
+            "o = P._code_outcomes(%d, %r); print(json.dumps([[k[0], list(k[1]), list(v)] for k, v in o.items()]))"
+            % (os.path.dirname(os.path.dirname(os.path.abspath(__file__))), max_arity, reverse))
+    env = dict(os.environ, PYTHONHASHSEED=str(hashseed))
+    p = subprocess.run([sys.executable, "-c", code], env=env, capture_output=True, text=True, timeout=3600)
+    if p.returncode != 0:
+        raise RuntimeError("outcome enumeration failed: " + p.stderr[-500:])
+    return {(a, tuple(b)): tuple(c) for a, b, c in json.loads(p.stdout)}
+
+
+def phase_resolve(ctx, phase):
+    import json
+
+    from . import catalog as C
+
+    max_arity = phase.get("max_arity", 2)
+    d = tlc.prepare(f"{ctx.prop}-resolve-{os.getpid()}", ctx.seed)
+    text, meta = C.catalog_module()
+    with open(os.path.join(d, "Catalog.tla"), "w") as f:
+        f.write(text)
+    nops = len(meta["ops"])
+    with open(os.path.join(d, "Run.tla"), "w") as f:
+        f.write("---- MODULE Run ----\nEXTENDS MC_Resolve\n====\n")
+    with open(os.path.join(d, "Run.cfg"), "w") as f:
+        f.write(f"CONSTANTS\n MaxArity = {max_arity}\n OpLo = 1\n OpHi = {nops}\nINIT Init\nNEXT Next\nCHECK_DEADLOCK FALSE\n")
+    spec = {}
+
+    def on_json(o):
+        spec[(o["op"], tuple(o["args"]))] = o
+
+    res = tlc.run(d, timeout=phase.get("timeout", 3000), on_json=on_json)
+    if res["timed_out"]:
+        ctx.exhaustive = False
+    ctx.tlc_states += res["states"]
+    ctx.tlc_distinct += res["distinct"]
+    ctx.tlc_runs.append(dict(profile=f"resolve(arity<={max_arity})", states=res["states"], distinct=res["distinct"],
+                             behaviours=len(spec), wall=round(res["wall"], 1), mode="bfs"))
+    code = _code_outcomes(max_arity)
+    colfn = _colfn_outcomes(min(max_arity, 2))
+    ctx.behaviours += len(spec)
+    ctx.replay_stats["steps_new"] = ctx.replay_stats.get("steps_new", 0) + len(code)
+    ctx.replay_stats["colfn_constructions"] = len(colfn)
+
+    def fail(clause, key, detail, exc=None):
+        ctx.failures.append(dict(clause=clause, backend="code", step=0, detail=detail, exc=exc, tainted=False, src=[], srcidx=0,
+                                 moves=[dict(v="resolve", op=key[0], args=list(key[1]))], heap_obs=[],
+                                 beh=dict(op=key[0], args=list(key[1]), specification=spec.get(key), code=code.get(key))))
+
+    if set(spec) != set(code):
+        raise RuntimeError(f"domain mismatch between TLC ({len(spec)}) and code enumeration ({len(code)})")
+    for key, c in code.items():
+        s = spec[key]
+        base = lambda t: t.replace("c:", "")  # noqa: E731
+        if c[0] == "error" and c[1] != "DataTypeError":
+            fail("resolve-internal", key, f"type checking raised {c[1]} (specification: {s['o']})", exc=c[1])
+        elif s["o"] == "match":
+            if c[0] != "match":
+                fail("resolve", key, f"specification selects {s['ret']}, code: {c}")
+            elif base(c[1]) != base(s["ret"]):
+                fail("resolve", key, f"return type {c[1]}, specification {s['ret']}")
+        elif s["o"] == "reject":
+            if c[0] == "match":
+                fail("resolve", key, f"specification rejects, code returns {c[1]}")
+        elif s["o"] == "ambiguous":
+            if c[0] == "match":
+                fail("resolve-order", key, f"several overloads at minimal cost, code picks {c[1]} (order dependent)")
+        # uniformity clauses evaluated by TLC on the catalogue
+        if not s.get("su", True):
+            fail("sized-uniform", key, "a sized type is not accepted (or gives another family) where the generic type is")
+        if not s.get("ca", True):
+            fail("const-accepted", key, "a constant argument is rejected where a column argument is accepted")
+    # ColFn construction must agree with return_type
+    for key, r in colfn.items():
+        c = code[key]
+        if r[0] == "error" and r[1] not in ("DataTypeError",):
+            if r[1] == "TypeError" and key[0] in ("ascending", "descending", "nulls_first", "nulls_last"):
+                continue
+            fail("resolve-internal", key, f"ColFn construction raised {r[1]}", exc=r[1])
+        elif (r[0] == "match") != (c[0] == "match"):
+            fail("resolve", key, f"ColFn construction {r} but return_type {c}")
+    # independence of declaration order and hash order
+    import concurrent.futures as cf
+
+    variants = [(max_arity, 1, False), (max_arity, 2, True), (max_arity, 3, True)]
+    with cf.ThreadPoolExecutor(3) as ex:
+        for (ma, hs, rev), other in zip(variants, ex.map(_subproc_outcomes, variants)):
+            diff = [k for k in code if other.get(k) != code[k]]
+            ctx.extra.setdefault("order_variants", []).append(dict(hashseed=hs, reversed_declaration=rev, differing=len(diff)))
+            for k in diff[:50]:
+                fail("resolve-order", k, f"outcome {code[k]} changes to {other.get(k)} with PYTHONHASHSEED={hs}, reversed declaration order={rev}")
+    ctx.samples.extend([dict(op=k[0], args=list(k[1]), specification=spec[k]["o"] + ":" + spec[k]["ret"], code=list(code[k]))
+                        for k in list(code)[:: max(1, len(code) // 3)][:3]])
+    return d
+
+
+# ------------------------------------------------------------------------------------------
+# C17: acceptance matrix of cast
+
+def phase_castmatrix(ctx, phase):
+    import uuid as _uuid
+
+    from . import catalog as C
+
+    d = tlc.prepare(f"{ctx.prop}-castmatrix-{os.getpid()}", ctx.seed)
+    text, _ = C.catalog_module()
+    with open(os.path.join(d, "Catalog.tla"), "w") as f:
+        f.write(text)
+    with open(os.path.join(d, "Run.tla"), "w") as f:
+        f.write("---- MODULE Run ----\nEXTENDS MC_CastMatrix\n====\n")
+    with open(os.path.join(d, "Run.cfg"), "w") as f:
+        f.write("INIT Init\nNEXT Next\nCHECK_DEADLOCK FALSE\n")
+    spec = {}
+    res = tlc.run(d, timeout=600, on_json=lambda o: spec.__setitem__((o["src"], o["tgt"]), o["o"]))
+    ctx.tlc_states += res["states"]
+    ctx.tlc_distinct += res["distinct"]
+    ctx.tlc_runs.append(dict(profile="castmatrix", states=res["states"], distinct=res["distinct"], behaviours=len(spec),
+                             wall=round(res["wall"], 1), mode="bfs"))
+    from pydiverse.transform._internal.ops.op import Ftype
+    from pydiverse.transform._internal.tree import types
+    from pydiverse.transform._internal.tree.col_expr import Cast, Col, LiteralCol
+
+    uni = C.all_types()
+    bytok = {C.tok(t): t for t in uni}
+
+    def fail(clause, key, detail, exc=None):
+        ctx.failures.append(dict(clause=clause, backend="code", step=0, detail=detail, exc=exc, tainted=False, src=[], srcidx=0,
+                                 moves=[dict(v="resolve", op="cast", args=list(key))], heap_obs=[],
+                                 beh=dict(cast=list(key), specification=spec.get(key))))
+
+    n = 0
+    for (s, t), want in spec.items():
+        st, tt = bytok[s], bytok[t]
+        arg = LiteralCol(None, dtype=st.base) if types.is_const(st) else Col("x", None, _uuid.uuid1(), st, Ftype.ELEMENT_WISE)
+        try:
+            Cast(arg, tt)
+            got = "ok"
+        except Exception as e:  # noqa: BLE001
+            got = "reject" if type(e).__name__ == "DataTypeError" else "error:" + type(e).__name__
+        n += 1
+        if got.startswith("error"):
+            fail("cast-internal", (s, t), f"Cast construction raised {got[6:]}", exc=got[6:])
+        elif want != "unspec" and got != want:
+            fail("cast-accept", (s, t), f"specification: {want}, Cast construction: {got}")
+    # the same through a lambda column (type check deferred until the verb resolves C.x)
+    import datetime
+
+    import polars as pl
+
+    import pydiverse.transform as pdt
+    from pydiverse.transform.extended import C as CC
+    from pydiverse.transform.extended import mutate
+
+    df = pl.DataFrame({"i": [1], "f": [1.5], "s": ["1"], "b": [True], "d": [datetime.date(2020, 1, 2)],
+                       "t": [datetime.datetime(2020, 1, 2, 3, 4, 5)]})
+    tbl = pdt.Table(df)
+    colty = {"i": "Int64", "f": "Float64", "s": "String", "b": "Bool", "d": "Date", "t": "Datetime"}
+    for cn, s in colty.items():
+        for t in [x for x in bytok if not x.startswith("c:")]:
+            want = spec[(s, t)]
+            try:
+                tbl >> mutate(y=CC[cn].cast(bytok[t]))
+                got = "ok"
+            except Exception as e:  # noqa: BLE001
+                got = "reject" if type(e).__name__ == "DataTypeError" else "error:" + type(e).__name__
+            n += 1
+            if got.startswith("error"):
+                fail("cast-internal", (s, t), f"mutate(y=C.{cn}.cast({t})) raised {got[6:]}", exc=got[6:])
+            elif want != "unspec" and got != want:
+                fail("cast-accept", (s, t), f"specification: {want}, mutate(y=C.{cn}.cast({t})): {got} (deferred type check)")
+    ctx.behaviours += len(spec)
+    ctx.replay_stats["steps_new"] = ctx.replay_stats.get("steps_new", 0) + n
+    return d
